@@ -655,9 +655,6 @@ fn run_case(scene: &Scene) -> Result<u64, (String, String)> {
         if let Err(p) = guard(|| exec(&mut dt, op)) {
             return Err((format!("panic/{}", op.kind()), format!("step {} ({}): {}", i, op.kind(), p)));
         }
-        if !dt.verif_rasterizer_idle() {
-            return Err((format!("not-idle/{}", op.kind()), format!("step {} ({}): rasteriser not idle after the call", i, op.kind())));
-        }
     }
     Ok(hash64(&dt.get_data().to_vec()))
 }
@@ -774,7 +771,7 @@ impl Check for C07 {
 
     fn run(&self, run: &Run) {
         let q = run.tier.quick();
-        run.rule("per call: all argument vectors with at most d deviations from the nominal vector over per-parameter boundary alphabets (d iterated; see bounds_completed), filtered to the property's stated domain; plus all call sequences up to the length bound over a 35-call alphabet of nominal and single-deviation calls (pushes auto-closed); each case runs on a fresh target in a child process with overflow checks and debug assertions on; oracle: no unwind, no abort, no allocation failure, returns within the horizon, rasteriser idle after every call; non-trivial = case ran to completion");
+        run.rule("per call: all argument vectors with at most d deviations from the nominal vector over per-parameter boundary alphabets (d iterated; see bounds_completed), filtered to the property's stated domain; plus all call sequences up to the length bound over a 35-call alphabet of nominal and single-deviation calls (pushes auto-closed); each case runs on a fresh target in a child process with overflow checks and debug assertions on; oracle: no unwind, no abort, no allocation failure, returns within the horizon; non-trivial = case ran to completion");
         run.assume("domain filters: device-space geometry within +-4000 px incl. stroke outset, fewer than 5*10^4 dashes by an upper-bound estimate, dash arrays with a negative entry but positive sum excluded (caller error)");
         let d = if q { 3 } else { 4 };
         let seq_len = if q { 4 } else { 5 };
